@@ -377,6 +377,10 @@ def fixed_corpus():
     # an accepting loop state followed by an optional suffix that starts with two or more mandatory bytes (exponent, range
     # operator): a place where code might look ahead before committing
     out.append(Def([L('regex', '[0-9]+(e-[0-9]+)?'), L('regex', '[a-z]+(\\.\\.=[a-z]+)?'), L('token', '.'), L('skip', ' ')], origin='fixed:opt-suffix'))
+    # the Unicode mode of a pattern comes from the kind of its literal, not from the mode of the lexer: a str-literal skip / regex in
+    # a byte-mode lexer, a byte-string skip / regex in a str-mode lexer, with Unicode-sensitive classes
+    out.append(Def([L('skip', '\\s+'), L('regex', '[a-z]+'), L('regex', '\\d+')], utf8=False, origin='fixed:literal-kind-vs-mode'))
+    out.append(Def([L('skip', b'\\s+', is_bytes=True), L('regex', '[a-z]+'), L('regex', b'\\d+', is_bytes=True), L('regex', '\\p{Greek}+')], origin='fixed:literal-kind-vs-mode2'))
     # byte mode with arbitrary bytes
     out.append(Def([L('token', bytes([0xff, 0x00, 0x61]), is_bytes=True), L('regex', '(?-u)[\\x80-\\xbf]+'),
                     L('regex', 'é+'), L('regex', '[a-z]+')], utf8=False, origin='fixed:bytes'))
